@@ -320,7 +320,11 @@ class Parser:
     #
     def expand_macro(self, buf, tok, math):
         buf.next()
-        buf.skip_space()    # for macros without arguments, even if known
+        # for macros without arguments, even if known
+        # NB: a language switch, e.g. at the end of the argument in
+        #     '\foreignlanguage{german}{... \LaTeX} ...', must not get lost,
+        #     and space behind it has to be kept
+        buf.skip_space(stop_at_lang=True)
         if tok.txt not in self.the_macros:
             if not (math or tok.txt in self.unknowns):
                 self.unknowns.append(tok.txt)
